@@ -250,3 +250,13 @@ PROPS.update({
               "theorems c13_*; monitor Spec.c13 + goroutine-leak census on implementation traces",
               assumptions=["goroutine exit and the poll-interval bound are runtime facts: measured, not proved"]),
 })
+
+PROPS.update({
+    "C06": gw("C06",
+              "Lean theorems about the two message-ID stores of the model (as in the repaired code): c06_broker_store_frame / c06_client_store_frame / c06_new_exchanges "
+              "(bookkeeping of one side never changes the other side's store), c06_acks_use_own_store + c06_lookup_independent (each acknowledgement is looked up only "
+              "among the exchanges of the side that can answer it), c06_finally_only_self(_b) + c06_successor_survives (a finished or superseded exchange removes only "
+              "itself) for ALL states; the whole-session statement (every acknowledgement of an exchange in progress is delivered) is checked by the monitor Spec.c06 on "
+              "the collide profile (both sides forced onto a handful of message IDs); gateway half only - the client-library half needs the client suite",
+              "theorems c06_* (all states); monitor Spec.c06 on implementation traces (collide profile)"),
+})
